@@ -230,12 +230,26 @@ def uniform_edges(rng, fl):
 
 
 # ------------------------------------------------------------------------------------------------- case construction
-def make_case(rng, fam, sig, n, splits, mode, block, metric=None, auto=False, parts=None, tmode='static'):
+# Narrow float traces with a large DC offset (scope data), accumulated in a WIDER precision: the results must be good to the rounding
+# of the PRECISION, whichever kernel handled a batch (a kernel that squares in the storage dtype is off by ~6e-8 * offset^2).
+# (denominator, offset numerator, half-width of the numerators): 1000 + j/1024 with |j| <= 2048, 65536 + j/16 with |j| <= 64.
+# Both fit float32 exactly, and every sum of <= 40 squares fits float64 exactly (numerators ~2^20).
+OFFSETS = {'a': (1024, 1000 * 1024, 2048), 'b': (16, 65536 * 16, 64)}
+OFFSET_SIG = ('float32', 'float64')
+
+
+def make_case(rng, fam, sig, n, splits, mode, block, metric=None, auto=False, parts=None, tmode='static', offset=None):
     tdtype, prec = sig
     S = rng.randint(1, 4)
-    lo, hi = trace_range(fam, prec, tdtype)
-    traces = gen_traces(rng, n, S, lo, hi)
-    case = {'fam': fam, 'prec': prec, 'tdtype': tdtype, 'tden': _den(tdtype), 'S': S, 'traces': traces, 'splits': list(splits),
+    if offset:
+        tden, base, half = OFFSETS[offset]
+        lo, hi = base - half, base + half
+        traces = [[rng.randint(lo, hi) for _ in range(S)] for _ in range(n)]
+    else:
+        tden = _den(tdtype)
+        lo, hi = trace_range(fam, prec, tdtype)
+        traces = gen_traces(rng, n, S, lo, hi)
+    case = {'fam': fam, 'prec': prec, 'tdtype': tdtype, 'tden': tden, 'S': S, 'traces': traces, 'splits': list(splits),
             'computes': compute_positions(rng, len(splits), mode), 'mode': mode, 'block': block, 'dden': 1, 'parts': [], 'auto': False}
     if fam in ('cpa', 'cpa_alt'):
         W = rng.randint(1, 3)
@@ -266,7 +280,7 @@ def make_case(rng, fam, sig, n, splits, mode, block, metric=None, auto=False, pa
     elif fam == 'mia':
         W = rng.randint(1, 3)
         fl = tdtype.startswith('float')
-        edges = uniform_edges(rng, fl)
+        edges = uniform_edges(rng, fl) if not offset else ([998.0 + i for i in range(5)] if offset == 'a' else [65530.0 + 2 * i for i in range(6)])
         # some samples exactly on edges / outside the window
         den = case['tden']
         e_num = [int(round(e * den)) for e in edges]
@@ -626,15 +640,17 @@ def RUN_SEED():
 
 def signature_plan(rng, tier):
     """(trace dtype, precision) pairs used by the JIT-compiled kernels of this run.  Quick: every trace dtype once (precision
-    drawn from the seed), two of them also with small class sets / template build (second kernels: 4-8 s of compilation
-    each); thorough: all fourteen."""
+    drawn from the seed, float32 traces always with float64 precision), two of them - (float32, float64) and one drawn pair in float32
+    precision - also with small class sets / template build (second kernels: 4-8 s of compilation each); thorough: all fourteen."""
     if tier != 'quick':
         allp = [(t, p) for t in TDT for p in PRECS]
         return allp, allp
     base = [(t, rng.choice(PRECS)) for t in TDT]
-    heavy = rng.sample(base, 2)
-    if heavy[0][1] == heavy[1][1]:
-        heavy[1] = (heavy[1][0], 'float64' if heavy[1][1] == 'float32' else 'float32')
+    other = rng.choice([t for t in TDT if t != OFFSET_SIG[0]])
+    # float32 traces with float64 precision are always there (the offset block needs both kernels for that pair); the second
+    # pair with the expensive kernels is another dtype in float32 precision
+    base = [OFFSET_SIG if t == OFFSET_SIG[0] else ((t, 'float32') if t == other else (t, p)) for t, p in base]
+    heavy = [OFFSET_SIG, (other, 'float32')]
     return base, heavy
 
 
@@ -650,6 +666,10 @@ class HistKind(Kind):
     # ------------------------------------------------------------------ generation
     def variants(self, rng, sig, small_ok):
         """Per-case extra arguments of make_case (class sets, metric, ...)."""
+        return {}
+
+    def offset_variant(self, i):
+        """Overrides of the variants for the i-th case of the offset block."""
         return {}
 
     def sigs(self, tier):
@@ -686,6 +706,15 @@ class HistKind(Kind):
                 yield self._with_computes(mk(n, [n], 'none', 'single_batch_twice'), [2])
                 yield mk(n, [1] * n, 'every' if n <= 12 else 'subset', 'all_ones')
             yield self._with_computes(mk(4, [1, 2, 1], 'none', 'sizes_1_2_1'), [1, 1, 1])
+            # float32 traces with a large offset, float64 precision, >= 3 batches (the 2nd batch of a partitioned / template build
+            # object always goes through its second kernel), class sets <= 9 and > 9
+            for i, (off, n, splits) in enumerate([('a', 40, [13, 13, 14]), ('b', 40, [10, 10, 10, 10]), ('a', 24, [1, 11, 6, 6]),
+                                                  ('b', 30, [5, 20, 5]), ('a', 12, [4, 4, 4]), ('b', 36, [12, 12, 12])]):
+                kw = self.variants(rng, OFFSET_SIG, True)
+                kw.update(self.offset_variant(i))
+                kw.pop('auto', None)
+                c = make_case(rng, self.fam, OFFSET_SIG, n, splits, 'every' if i % 2 == 0 else 'subset', 'float32_offset_float64', offset=off, **kw)
+                yield c
         # --- every composition of n, n = 2..7 (exhaustive), compute positions rotating (thorough: all four modes)
         k = 0
         for n in range(2, 8):
@@ -816,7 +845,8 @@ class HistKind(Kind):
 
 RULE = ('histories of update(batch) / compute() on ONE real object: every composition of n for n = 2..7, random compositions for '
         'n = 8..40, compute() after no / every / a random subset of the updates, doubled; boundary block: batch of 1 first, batch of 1 '
-        'last, all batches of 1, compute between the 2nd and 3rd batch (once, twice), a single batch, sizes 1-2-1; 1..4 samples, 1..3 words; '
+        'last, all batches of 1, compute between the 2nd and 3rd batch (once, twice), a single batch, sizes 1-2-1, float32 traces with a large offset '
+        '(1000 + j/1024, 65536 + j/16) accumulated in float64 over 3-4 batches; 1..4 samples, 1..3 words; '
         'trace dtypes u8/i8/u16/i16/i32/f32/f64 (floats k/8); every compute() value and processed_traces compared inside Coq with the '
         'one-shot spec on the rows fed before it; non-trivial = at least two batches and a defined value')
 
@@ -851,6 +881,9 @@ class PartKind(HistKind):
         if small_ok and r < 0.7:
             return {'metric': self.metric, 'parts': rng.choice(SMALL_SETS)}
         return {'metric': self.metric, 'parts': rng.choice(LARGE_SETS)}
+
+    def offset_variant(self, i):
+        return {'metric': self.metric, 'parts': (SMALL_SETS + LARGE_SETS)[i % 5]}
 
 
 class AnovaKind(PartKind):
